@@ -245,6 +245,38 @@ type c18Run struct {
 	locked    bool
 	resMapper *generic.Resource[C18Res]
 	filt      *c18Filt
+	// H: another world, with the same component types registered in the opposite order and a fixed population. A
+	// generic filter object is not bound to a world: after a builder call it compiles against the world it is given.
+	H    *ecs.World
+	hids []ecs.ID
+}
+
+// otherWorld builds H (lazily).
+func (r *c18Run) otherWorld() {
+	if r.H != nil {
+		return
+	}
+	w := ecs.NewWorld(ecs.NewConfig().WithCapacityIncrement(4))
+	r.H = &w
+	r.hids = make([]ecs.ID, len(c18Types))
+	for t := len(c18Types) - 1; t >= 0; t-- {
+		r.hids[t] = ecs.TypeID(r.H, c18Types[t])
+	}
+	for i := 0; i < 40; i++ {
+		var ids []ecs.ID
+		for t := 0; t < 12; t++ {
+			if (i*7+t*5+i*t)%3 == 0 {
+				ids = append(ids, r.hids[t])
+			}
+		}
+		r.H.NewEntity(ids...)
+	}
+	for t := 0; t < 12; t++ { // and one entity per single type, so that small filters select something
+		r.H.NewEntity(r.hids[t])
+	}
+	all := make([]ecs.ID, 12)
+	copy(all, r.hids[:12])
+	r.H.NewEntity(all...)
 }
 
 func typeIndex(t reflect.Type) int {
@@ -1339,6 +1371,69 @@ func (r *c18Run) opFilter(c *cursor) *Violation {
 	G, K := &r.G.w, &r.K.w
 	comps := func(t int) generic.Comp { return generic.Comp(c18Types[t]) }
 	if r.filt != nil && !r.filt.registered && c.n(100) < 18 {
+		if fl := r.filt; fl.rel < 0 && c.n(2) == 0 {
+			// the last use of this filter object: a builder call, then a query on ANOTHER world (types registered in the
+			// opposite order); the selection must be the one of the equivalent core filter built with that world's IDs
+			r.otherWorld()
+			inM := func(t int) bool { return !fl.arity0 && contains2(r.mapT, t) }
+			t0 := c.n(12)
+			did := false
+			for i := 0; i < 12; i++ {
+				x := (t0 + i) % 12
+				if !inM(x) && !contains2(fl.include, x) && !contains2(fl.exclude, x) {
+					fl.f.With(comps(x))
+					fl.include = append(fl.include, x)
+					did = true
+					break
+				}
+			}
+			if !did {
+				r.filt = nil // without a builder call the filter stays compiled for the first world: nothing to check
+				return nil
+			}
+			var inc []ecs.ID
+			for _, t := range fl.include {
+				if !contains2(fl.optional, t) {
+					inc = append(inc, r.hids[t])
+				}
+			}
+			mask := ecs.All(inc...)
+			var hf ecs.Filter = mask
+			if fl.exclusive {
+				mf := mask.Exclusive()
+				hf = &mf
+			} else if len(fl.exclude) > 0 {
+				var exc []ecs.ID
+				for _, t := range fl.exclude {
+					exc = append(exc, r.hids[t])
+				}
+				mf := mask.Without(exc...)
+				hf = &mf
+			}
+			var gq qres
+			var msg string
+			func() {
+				defer func() {
+					if x := recover(); x != nil {
+						msg = fmt.Sprint(x)
+					}
+				}()
+				gq = fl.f.Query(r.H, nil, false)
+			}()
+			if msg != "" {
+				return r.viol("FilterN.Query on another world panicked: %s", msg)
+			}
+			hq := r.H.Query(hf)
+			hents, hn := kCollect(&hq)
+			r.Concrete = append(r.Concrete, "filter used on another world after a builder call")
+			if gq.count != hn || !sameEnts(gq.ents, hents) {
+				return r.viol("FilterN.Query on another world (same types, registered in the opposite order; include %v optional %v exclude %v exclusive %v) selects %d entities, the equivalent core filter %d",
+					fl.include, fl.optional, fl.exclude, fl.exclusive, len(gq.ents), len(hents))
+			}
+			r.stats["filter-used-on-another-world"]++
+		} else {
+			c.n(1)
+		}
 		r.filt = nil
 	} else {
 		c.n(1)
@@ -1434,6 +1529,13 @@ func (r *c18Run) opFilter(c *cursor) *Violation {
 					f.WithRelation(comps(fl.rel), nil)
 				}
 				r.Concrete = append(r.Concrete, "filter.WithRelation")
+			} else if fl.rel >= 0 && fl.fixedTarget != nil && fl.nq > 0 {
+				// the fixed target is replaced by another one after the filter has been used
+				tg, _ := r.pick(c)
+				fl.fixedTarget = &tg
+				f.WithRelation(comps(fl.rel), []ecs.Entity{tg})
+				r.stats["filter-fixed-target-replaced"]++
+				r.Concrete = append(r.Concrete, "filter.WithRelation (another fixed target)")
 			}
 		}
 	}
